@@ -137,10 +137,11 @@ Lemma source_tables :
    sc_reader_ws_close_is_eof = true) /\
   sc_statelock_blocking_calls = [] /\
   (sv_serve_eof_identity = true /\ sc_serve_reads_context_every_turn = true) /\
-  sc_closesession_sets_bit_before_write = true.
+  sc_closesession_sets_bit_before_write = true /\
+  (sc_writedeadline_cleared_where_expired = true /\ sc_newconn_deadlines_from_prev = true).
 Proof.
   split; [exact tbl_out_lockers|]. split.
   - destruct tbl_guards as (_ & A & B & C & D & E). destruct tbl_reader_and_deadline as [F _]. tauto.
   - split; [exact tbl_setters|]. split; [exact tbl_serve_defer|]. split; [exact (conj (proj2 tbl_reader_and_deadline) tbl_setdeadline)|].
-    destruct tbl_close_tags as (_ & _ & A). destruct tbl_ws_framing as [B C]. split; [tauto|]. split; [exact tbl_statelock|]. split; [exact tbl_serve_loop|exact tbl_closesession_order].
+    destruct tbl_close_tags as (_ & _ & A). destruct tbl_ws_framing as [B C]. split; [tauto|]. split; [exact tbl_statelock|]. split; [exact tbl_serve_loop|]. split; [exact tbl_closesession_order|exact tbl_transport_deadlines].
 Qed.
